@@ -191,6 +191,8 @@ def add_requests(rng, cfg, tier):
         if scal:
             calls.append({"req": 1, "kind": "sort", "group": "part", "key": rng.choice(scal)})
     calls.append({"req": 1, "kind": "sort", "group": "mesh", "key": c["hydro"][0]})
+    # particles only, with a sortby that also names the mesh (a dict reused from an earlier full load)
+    calls.append({"req": 1, "kind": "sortx", "groups": ["part"], "sortby": {"mesh": c["hydro"][0]}})
     cfg["reqs"] = reqs
     cfg["calls"] = calls
     return cfg
